@@ -23,10 +23,16 @@ Definition tok := string.              (* non-empty, whitespace-free *)
 Definition name := list tok.           (* strings.Fields of the text; [] = no text *)
 Definition vec3 := (N * N * N)%type.
 Definition vec2 := (N * N)%type.
-Definition corner := (Z * option Z * option Z)%type.      (* v, vt, vn as written: 1-based *)
+(* a face-corner token: v, vt, vn as written (1-based) and a spelling tag.  The reader de-duplicates corners by
+   the token TEXT (map[string]int), so "1/2" and "01/2" or "1" and "1//" are different keys with equal numbers:
+   tag 0 = the canonical decimal spelling v | v/vt | v//vn | v/vt/vn; any other spelling carries a non-zero
+   tag that is unique per distinct token text of the file (assigned by the harness tokenizer). *)
+Definition corner := (Z * option Z * option Z * N)%type.
 Inductive line :=
 | V (p : vec3) | VT (p : vec2) | VN (p : vec3)
 | G (n : name) | UseMtl (n : name) | F (a b c : corner)
+| Fn (cs : list corner)      (* an f line whose corner count is not 3: polygon, or too short *)
+| Short                      (* a v / vt / vn line with fewer numbers than the reader indexes *)
 | MtlLib (n : name) | O (n : name) | Other.
 
 (* modeling.Mesh as far as OBJ is concerned; [] = attribute absent (SetFloatNAttribute deletes empty data);
@@ -53,7 +59,7 @@ Definition zi (k : nat) : Z := Z.of_nat k.
 Definition wcorner (o : offs) (m : mesh) (i : nat) : corner :=
   (zi (i + 1 + ov o),
    if nonnil (m_uv m) then Some (zi (i + 1 + ot o)) else None,
-   if nonnil (m_nrm m) then Some (zi (i + 1 + on o)) else None).
+   if nonnil (m_nrm m) then Some (zi (i + 1 + on o)) else None, 0%N).
 
 (* shared = true: the pinned writer (one offset for v, vt and vn) *)
 Definition advance (shared : bool) (o : offs) (m : mesh) : offs :=
@@ -142,7 +148,7 @@ Record rcfg := { close_at_g : bool;      (* f82d47b: close the open material ran
 Definition oz_eqb (a b : option Z) : bool :=
   match a, b with Some x, Some y => Z.eqb x y | None, None => true | _, _ => false end.
 Definition corner_eqb (a b : corner) : bool :=
-  let '(v, t, n) := a in let '(v', t', n') := b in Z.eqb v v' && oz_eqb t t' && oz_eqb n n'.
+  let '(v, t, n, sp) := a in let '(v', t', n', sp') := b in Z.eqb v v' && oz_eqb t t' && oz_eqb n n' && N.eqb sp sp'.
 Fixpoint find_idx {A} (eqb : A -> A -> bool) (x : A) (l : list A) : option nat :=
   match l with
   | [] => None
@@ -164,7 +170,7 @@ Definition corner_step (st : rstate) (g : wgeom) (c : corner) : res (wgeom * nat
   match find_idx corner_eqb c (w_tbl g) with
   | Some p => Ok (g, p)
   | None =>
-      let '(v, vt, vn) := c in
+      let '(v, vt, vn, _) := c in
       dor p <- look_req (r_v st) v;
       dor n <- look_opt (r_vn st) vn;
       dor t <- look_opt (r_vt st) vt;
@@ -204,6 +210,13 @@ Definition add_tri (g : wgeom) (a b c : nat) : wgeom :=
 
 Definition default_name : name := ["Default"%string].
 
+Definition face_step (st : rstate) (a b c : corner) : res rstate :=
+  dor '(g1, p1) <- corner_step st (r_w st) a;
+  dor '(g2, p2) <- corner_step st g1 b;
+  dor '(g3, p3) <- corner_step st g2 c;
+  Ok {| r_v := r_v st; r_vt := r_vt st; r_vn := r_vn st; r_since := S (r_since st);
+        r_done := r_done st; r_w := add_tri g3 p1 p2 p3; r_libs := r_libs st |}.
+
 Definition step (cfg : rcfg) (st : rstate) (l : line) : res rstate :=
   match l with
   | V p => Ok {| r_v := r_v st ++ [p]; r_vt := r_vt st; r_vn := r_vn st; r_since := r_since st;
@@ -240,12 +253,11 @@ Definition step (cfg : rcfg) (st : rstate) (l : line) : res rstate :=
                   r_w := wnew n []; r_libs := r_libs st |}
         else Ok (set_w st (set_name g n))
       else Declared
-  | F a b c =>
-      dor '(g1, p1) <- corner_step st (r_w st) a;
-      dor '(g2, p2) <- corner_step st g1 b;
-      dor '(g3, p3) <- corner_step st g2 c;
-      Ok {| r_v := r_v st; r_vt := r_vt st; r_vn := r_vn st; r_since := S (r_since st);
-            r_done := r_done st; r_w := add_tri g3 p1 p2 p3; r_libs := r_libs st |}
+  | F a b c => face_step st a b c
+  (* only components[1..3] are looked at: corners past the third are ignored, a missing one is an index panic *)
+  | Fn (a :: b :: c :: _) => face_step st a b c
+  | Fn _ => Crash
+  | Short => Crash
   | O _ | Other => Ok st
   end.
 
@@ -290,7 +302,7 @@ Definition slook {A} (tbl : list A) (o : option Z) : option A :=
   | Some z => if (z <=? 0)%Z then None else nth_error tbl (Z.to_nat (z - 1))
   end.
 Definition scontent (st : sstate) (c : corner) : content :=
-  let '(v, vt, vn) := c in (slook (s_v st) (Some v), slook (s_vt st) vt, slook (s_vn st) vn).
+  let '(v, vt, vn, _) := c in (slook (s_v st) (Some v), slook (s_vt st) vt, slook (s_vn st) vn).
 
 Definition has_uv (c : content) : bool := match c with (_, Some _, _) => true | _ => false end.
 Definition has_nrm (c : content) : bool := match c with (_, _, Some _) => true | _ => false end.
@@ -304,6 +316,14 @@ Definition final_tags (cur : option name) (tg : list (option name)) : list (opti
   | Some _ => map (fun t => match t with Some n => Some n | None => Some default_name end) tg
   end.
 Definition sclose (st : sstate) : gobs := (s_nm st, normalise (s_cs st), final_tags (s_cur st) (s_tg st)).
+
+(* a polygon is the fan of its corners: (c0, c1, c2), (c0, c2, c3), ... *)
+Fixpoint fan {A} (c0 : A) (cs : list A) : list A :=
+  match cs with
+  | a :: (b :: _) as r => c0 :: a :: b :: fan c0 r
+  | _ => []
+  end.
+Definition poly_corners {A} (cs : list A) : list A := match cs with [] => [] | c0 :: r => fan c0 r end.
 
 Definition sstep (st : sstate) (l : line) : sstate :=
   match l with
@@ -324,7 +344,10 @@ Definition sstep (st : sstate) (l : line) : sstate :=
   | F a b c => {| s_v := s_v st; s_vt := s_vt st; s_vn := s_vn st; s_done := s_done st; s_nm := s_nm st;
                   s_cs := s_cs st ++ [scontent st a; scontent st b; scontent st c];
                   s_tg := s_tg st ++ [s_cur st]; s_cur := s_cur st |}
-  | MtlLib _ | O _ | Other => st
+  | Fn cs => let tri := map (scontent st) (poly_corners cs) in
+             {| s_v := s_v st; s_vt := s_vt st; s_vn := s_vn st; s_done := s_done st; s_nm := s_nm st;
+                s_cs := s_cs st ++ tri; s_tg := s_tg st ++ repeat (s_cur st) (length tri / 3); s_cur := s_cur st |}
+  | MtlLib _ | O _ | Other | Short => st
   end.
 Definition srun (st : sstate) (ls : list line) : sstate := fold_left sstep ls st.
 Definition file_groups (ls : list line) : list gobs :=
@@ -337,9 +360,9 @@ Definition lib_names (ls : list line) : name :=
 Definition idx_ok (n : nat) (z : Z) : bool := (1 <=? z)%Z && (z <=? Z.of_nat n)%Z.
 Definition oidx_ok (n : nat) (o : option Z) : bool := match o with None => true | Some z => idx_ok n z end.
 Definition corner_ok (nv nt nn : nat) (c : corner) : bool :=
-  let '(v, t, n) := c in idx_ok nv v && oidx_ok nt t && oidx_ok nn n.
+  let '(v, t, n, _) := c in idx_ok nv v && oidx_ok nt t && oidx_ok nn n.
 
-(* a triangulated OBJ: every index refers to a v / vt / vn line above it; usemtl and mtllib have an argument *)
+(* a triangulated OBJ: every f line has three corners, every index refers to a v / vt / vn line above it; usemtl and mtllib have an argument *)
 Fixpoint valid_from (nv nt nn : nat) (ls : list line) : bool :=
   match ls with
   | [] => true
@@ -349,7 +372,8 @@ Fixpoint valid_from (nv nt nn : nat) (ls : list line) : bool :=
   | F a b c :: r => corner_ok nv nt nn a && corner_ok nv nt nn b && corner_ok nv nt nn c && valid_from nv nt nn r
   | UseMtl n :: r => nonnil n && valid_from nv nt nn r
   | MtlLib n :: r => nonnil n && valid_from nv nt nn r
-  | _ :: r => valid_from nv nt nn r
+  | Fn _ :: _ | Short :: _ => false            (* not a triangulated / well-formed OBJ *)
+  | (G _ | O _ | Other) :: r => valid_from nv nt nn r
   end.
 Definition valid (ls : list line) : bool := valid_from 0 0 0 ls.
 (* trees without the bare-g repair additionally need named groups *)
@@ -393,7 +417,8 @@ Definition line_eqb (a b : line) : bool :=
   | VT p, VT q => vec2_eqb p q
   | G n, G n' | UseMtl n, UseMtl n' | MtlLib n, MtlLib n' | O n, O n' => name_eqb n n'
   | F a b c, F a' b' c' => corner_eqb a a' && corner_eqb b b' && corner_eqb c c'
-  | Other, Other => true
+  | Fn cs, Fn cs' => list_eqb corner_eqb cs cs'
+  | Other, Other | Short, Short => true
   | _, _ => false
   end.
 Definition mat_eqb (a b : nat * option name) : bool := Nat.eqb (fst a) (fst b) && opt_eqb name_eqb (snd a) (snd b).
